@@ -2,7 +2,7 @@
 
 Re-extracted from /repo on every run (comments and all whitespace are invisible):
   common.h   XMPP_QUEUE_STROPHE / _USER / _SM / _SM_STROPHE owner values
-  conn.c     _send_raw: the text of req_ack; the counter statements; the condition and call of the SM piggy-back
+  conn.c     _send_raw: the text of req_ack; the owner adjustment before SM is enabled; the counter statements; the condition and call of the SM piggy-back
              xmpp_conn_send_queue_len: the whole body
              _drop_send_queue_element: the whole body
              xmpp_conn_send_queue_drop_element: the six statements that decide which element is dropped
